@@ -42,7 +42,17 @@ def rule_records(ctx, nprog, depth, thin=1):
     for i, (name, text) in enumerate(V.repo_programs()):
         cases.append({"id": f"repo{i}", "prog": V.strip_comments(text), "origin": name})
     cases += [{"id": f"t{i}", "prog": p} for i, p in enumerate(TABLE_PROGRAMS)]
+    # reference grammar (spec/Syntax.tla): minimally parenthesised terms together with the tree they mean
+    prec = V.tlc_generate(ctx, "precasp", 220 if q else 864, depth, {"GEN_STRIDE": 47 if q else 1})
+    exp = {c["id"]: c["exp"] for c in prec}
+    cases += [{"id": c["id"], "prog": c["prog"]} for c in prec]
     recs = V.run_harness(ctx, "translate", cases)
+    for r in recs:
+        base = r["id"].rsplit(".", 1)[0]
+        if base in exp and r["kind"] == "rule":
+            r["exp"] = exp[base]
+        elif base in exp and r["kind"] in ("reject", "panic"):
+            r["reference_text"] = True
     return cases, recs
 
 
@@ -91,6 +101,11 @@ def check_rules(ctx, prefix, nprog_q, nprog_t, thin=1):
     stats, violations = V.collect(verdicts, usable, prefix)
     for p in panics:
         violations.append({"check": prefix + ".panic", "text": p["text"], "detail": "anthem panicked: " + p["panic"], "record": p})
+    if prefix == "C01":
+        for r in rejected:
+            if r.get("reference_text"):
+                violations.append({"check": "C01.text_parses_to_reference_tree", "text": r.get("text", ""),
+                                   "detail": "a term printed by the reference grammar is rejected by the parser: " + str(r.get("error", ""))[:200], "record": r})
     if prefix == "C08":
         # mu never fails: every parsed program must have produced rule records (a panic is reported above)
         pass
